@@ -964,11 +964,132 @@ def wrap_pendulum_timezone(real):
     return timezone
 
 
+# ----------------------------------------------------------------------------- date (ordinal only)
+RDATE = _dt.date
+
+
+class SDate(RDATE, metaclass=_Meta):
+    """datetime.date built from symbolic fields: carries the ordinal as a term (toordinal, weekday, isoweekday, comparisons,
+    date - date); any other use concretises with a recorded pin."""
+    _shadow_of = RDATE
+
+    def __new__(cls, year, month=None, day=None):
+        fields = (year, month, day)
+        if isinstance(year, (bytes, str)) or not any(is_sym(f) for f in fields if isinstance(f, int)):
+            args = tuple(_plain(f) for f in fields if f is not None)
+            return RDATE(*args) if cls is SDate else RDATE.__new__(cls, *args)
+        for f in fields:
+            if not isinstance(f, int):
+                raise TypeError(f"an integer is required (got type {type(f).__name__})")
+        (y, m, d), (cy, cm, cd) = [tm(f) for f in fields], [iv(f) for f in fields]
+        if branch(z3.Or(y < 1, y > 9999), not 1 <= cy <= 9999):
+            raise ValueError(f"year {cy} is out of range")
+        if branch(z3.Or(m < 1, m > 12), not 1 <= cm <= 12):
+            raise ValueError("month must be in 1..12")
+        if branch(z3.Or(d < 1, d > days_in_month(y, m)), not 1 <= cd <= _c_days_in_month(cy, cm)):
+            raise ValueError("day is out of range for month")
+        o = RDATE.__new__(cls, cy, cm, cd)
+        o._ord = days_from_civil(y, m, d) + EPOCH_ORD
+        o._ymd = (year, month, day)
+        return o
+
+    def _o(s):
+        return getattr(s, "_ord", None)
+
+    def toordinal(s):
+        c = RDATE.toordinal(s)
+        return c if s._o() is None else mk(SInt, s._o(), c)
+
+    def weekday(s):
+        c = RDATE.weekday(s)
+        return c if s._o() is None else mk(SInt, (s._o() + 6) % 7, c)
+
+    def isoweekday(s):
+        c = RDATE.isoweekday(s)
+        return c if s._o() is None else mk(SInt, (s._o() + 6) % 7 + 1, c)
+
+    year = property(lambda s: s._ymd[0] if s._o() is not None else RDATE.year.__get__(s))
+    month = property(lambda s: s._ymd[1] if s._o() is not None else RDATE.month.__get__(s))
+    day = property(lambda s: s._ymd[2] if s._o() is not None else RDATE.day.__get__(s))
+
+    def _pin(s, op):
+        if s._o() is not None:
+            for f in s._ymd:
+                if is_sym(f):
+                    pin(f, op)
+
+    def _cmp(s, o, f, name):
+        if s._o() is None or not isinstance(o, RDATE) or isinstance(o, RD):
+            s._pin(f"date.{name}")
+            return getattr(RDATE, name)(s, o)
+        ot = o._o() if isinstance(o, SDate) and o._o() is not None else z3.IntVal(RDATE.toordinal(o))
+        return SBool(f(s._o(), ot), getattr(RDATE, name)(s, o))
+
+    def __eq__(s, o):
+        return s._cmp(o, lambda a, b: a == b, "__eq__")
+
+    def __ne__(s, o):
+        return s._cmp(o, lambda a, b: a != b, "__ne__")
+
+    def __lt__(s, o):
+        return s._cmp(o, lambda a, b: a < b, "__lt__")
+
+    def __le__(s, o):
+        return s._cmp(o, lambda a, b: a <= b, "__le__")
+
+    def __gt__(s, o):
+        return s._cmp(o, lambda a, b: a > b, "__gt__")
+
+    def __ge__(s, o):
+        return s._cmp(o, lambda a, b: a >= b, "__ge__")
+
+    def __hash__(s):
+        s._pin("hash(date)")
+        return RDATE.__hash__(s)
+
+    def __sub__(s, o):
+        if s._o() is not None and isinstance(o, RDATE) and not isinstance(o, RD):
+            ot = o._o() if isinstance(o, SDate) and o._o() is not None else z3.IntVal(RDATE.toordinal(o))
+            return make_timedelta(mk(SInt, (s._o() - ot) * DAY, (RDATE.toordinal(s) - RDATE.toordinal(o)) * DAY))
+        s._pin("date.__sub__")
+        return RDATE.__sub__(s, o)
+
+    def __repr__(s):
+        return RDATE.__repr__(s)
+
+    def __reduce__(s):
+        return (RDATE, (RDATE.year.__get__(s), RDATE.month.__get__(s), RDATE.day.__get__(s)))
+
+
+for _n in ("strftime", "isoformat", "timetuple", "isocalendar", "replace", "ctime", "__add__", "__radd__", "__format__", "__str__"):
+    def _mkp(name):
+        def f(s, *a, **k):
+            s._pin(f"date.{name}")
+            return getattr(RDATE, name)(s, *a, **k)
+        f.__name__ = name
+        return f
+    setattr(SDate, _n, _mkp(_n))
+
+
+def _sdt_date(s):
+    """datetime.date(): the wall-clock date, ordinal kept as a term"""
+    if s._sym() is None:
+        return RD.date(s)
+    t = s._terms()
+    o = RDATE.__new__(SDate, RD.year.__get__(s), RD.month.__get__(s), RD.day.__get__(s))
+    o._ord = t["days"] + EPOCH_ORD
+    o._ymd = (s.year, s.month, s.day)
+    return o
+
+
+SDatetime.date = _sdt_date
+
+
 # ----------------------------------------------------------------------------- module stand-in
 def fake_datetime_module():
     m = types.ModuleType("datetime")
     m.__dict__.update({k: v for k, v in _dt.__dict__.items() if not k.startswith("__")})
-    m.datetime, m.timedelta, m.timezone = SDatetime, STimedelta, STimezone
+    m.datetime, m.timedelta, m.timezone, m.date = SDatetime, STimedelta, STimezone, SDate
     m.__file__ = getattr(_dt, "__file__", None)
     return m
 
